@@ -252,7 +252,7 @@ def check_calling_error(rep, prog):
     fn = prog.func(LP, 'calling_error_matrix')
     rep.saw_function(m.rel + ':' + fn.name)
     t = ast.unparse(fn)
-    okh = has(t, 'depths = coverage_distribution[0][1:]') and has(t, 'coverage_distribution_ = [x / coverage_distribution[1][1:].sum() for x in coverage_distribution[1][1:]]') and \
+    okh = has(t, 'depths = coverage_distribution[0][1:]') and has(t, 'coverage_distribution_ = [x / numpy.sum(coverage_distribution[1][1:]) for x in coverage_distribution[1][1:]]') and \
         has(t, 'prob_het_err = 2 * numpy.sum(coverage_distribution_ * 0.5 ** depths)')
     rep.ob('R-ALG', 'calling_error_matrix heterozygote error', okh, 'P(err) = 2 sum_{d>=1} c_d/(sum_{d>=1} c_d) 2^-d (depths and weights on the same slice [1:])', m.rel, fn.lineno,
            what='probability that all reads of a covered heterozygote show one allele, conditional on coverage')
@@ -469,7 +469,7 @@ def check_precalc(rep, prog):
            what='every locus is shuffled independently (Generator.permuted along axis 1; Generator.permutation would apply ONE column order to all loci) before the first n/2 genotypes are kept')
     cc = prog.func(LP, 'compute_cov_dist')
     tcc = ast.unparse(cc)
-    okn = has(tcc, 'numpy.array([elements, counts / counts.sum()])')
+    okn = has(tcc, 'numpy.array([elements, counts / numpy.sum(counts)])')
     rep.ob('R-NORM', 'compute_cov_dist', okn, 'counts / counts.sum()', m.rel, cc.lineno, what='depth distribution is normalised by its own sum')
 
 
